@@ -168,9 +168,10 @@ def meta(tier):
         "functions": [RuleDBBase.add, RuleDBBase._clean_labels, RuleDBBase.contains, RuleDBBase.__iter__, RuleDBBase.is_verified,
                       RuleDBBase.has_specification, RecomputingDict.__getitem__, RecomputingDict.__setitem__, RecomputingDict.__delitem__,
                       RecomputingDict.__contains__, RuleDBForgetStrategy.link_searcher],
-        "bounds": "rule sequences of real searches: all 64 two-state tables x 10 option sets (incl. verification strategies applying to "
+        "bounds": "rule sequences of real searches: all 64 two-state tables x the option sets listed below (incl. verification strategies applying to "
                   "classes other strategies also expand, inferral, symmetries, factories, statistics), late clock readings; comparison after "
                   "every insertion; membership grid over labels -1..5 with 0-2 children; every stored key of a non-empty class re-applied",
     })
     m["stubs"] = m["stubs"] + ["the searcher's rule database is wrapped to mirror every insertion into a RuleDB and a RuleDBForgetStrategy"]
+    m["bounds"] = str(m.get("bounds", "")) + " || end-to-end groups of this run: " + e2e.describe_groups(groups(tier))
     return m
